@@ -5,7 +5,6 @@ import operator
 from dask.dataframe.dispatch import make_meta, meta_nonempty
 from dask.dataframe.multi import (
     _concat_wrapper,
-    _merge_chunk_wrapper,
     _split_partition,
     merge_chunk,
 )
@@ -179,7 +178,15 @@ class Merge(Expr):
         kwargs = self.kwargs.copy()
         if kwargs["how"] == "leftsemi":
             kwargs["how"] = "left"
-        return make_meta(left.merge(right, **kwargs))
+        meta = left.merge(right, **kwargs)
+        if self.left_index and self.right_index:
+            # pandas names the joined index after the left frame (the right one
+            # for how="right"), but some of its code paths (empty frames,
+            # RangeIndex) name it after the data instead.
+            names = (right if kwargs["how"] == "right" else left).index.names
+            if len(names) == meta.index.nlevels:
+                meta.index = meta.index.set_names(names)
+        return make_meta(meta)
 
     @functools.cached_property
     def _npartitions(self):
@@ -765,7 +772,7 @@ class BroadcastJoin(Merge, PartitionsFiltered):
                 inter_key = (inter_name, part_out, j)
                 dsk[(inter_name, part_out, j)] = (
                     apply,
-                    _merge_chunk_wrapper,
+                    _merge_chunk,
                     _merge_args,
                     kwargs,
                 )
@@ -809,6 +816,19 @@ def create_assign_index_merge_transfer():
         )
 
     return assign_index_merge_transfer
+
+
+def _merge_chunk(lhs, rhs, result_meta, **kwargs):
+    out = merge_chunk(lhs, rhs, result_meta=result_meta, **kwargs)
+    # pandas derives the index names of an index-on-index join from the data
+    # (e.g. an empty frame passes on the names of the other one), so that the
+    # partitions would disagree with each other and with the declared meta
+    if (
+        out.index.nlevels == result_meta.index.nlevels
+        and out.index.names != result_meta.index.names
+    ):
+        out.index = out.index.set_names(result_meta.index.names)
+    return out
 
 
 class SemiMerge(Merge):
@@ -856,7 +876,7 @@ class BlockwiseMerge(Merge, Blockwise):
         kwargs["result_meta"] = self._meta
         return (
             apply,
-            merge_chunk,
+            _merge_chunk,
             [
                 self._blockwise_arg(self.left, index),
                 self._blockwise_arg(self.right, index),
